@@ -64,6 +64,11 @@ CLAIMED = {
          "All eight leaf kinds x 49 input representations (every Go numeric width, decimal/exponent/ParseBool/on-off strings, RFC3339 and layout strings, unix seconds, JSON-typed floats, []byte, lists, maps) x coercer option {default, WithCoercer, global conf.Coercers override, WithCoercer applied through Ptr, Time.Format with three layouts, Time.FormatFunc} x placement {top, struct field, slice element, behind pointer, struct in slice, pre-allocated pointer field} are parsed on the real code. On success the destination leaf must equal the documented coercion (and the input must have one); documented coercions must not be rejected; absent optional inputs, pointer fields with absent input and fields the schema does not name must be untouched; slices of length 0..3 in five representations keep length and order (scalar boxing, custom slice coercer).",
          "Documented table = docs parsing table + DESIGN Appendix A. Values outside the alphabet are not examined.",
          "DESIGN.md section 4 C03"),
+
+ "C04": ("stateless exhaustive exploration of the decision table (kind x Required x Default x NotNil x absent-looking / present-but-falsy input x context) on the real code; issues, test-run counts (recording tests) and destination-written checks against the table",
+         "Through the core space with the full input alphabets: every primitive kind, slice, pointer and struct context (top level, struct field, slice element, behind pointer, struct in slice, pointer to struct, nested struct), any two units jointly, Required x Default{none, passing, failing} x NotNil x {valid, missing key, nil, empty, spaces, tab/newline, NBSP, alternative representation, 0/false/zero time/\"0\", failing, uncoercible} in Parse and {valid, zero, failing, nil/empty/one-element slice, nil pointer} in Validate. Checked: exactly the required/not_nil issues the table prescribes at the right paths; recording tests ran exactly where a value is present or defaulted and not on skipped nodes; skipped nodes' destinations and fields not named by the schema are unchanged; defaults are written. Typed map inputs (map[string]string/int/float64/bool) with missing keys are checked separately.",
+         "Catch excluded (C05). Typed nil pointers as inputs are outside the table.",
+         "DESIGN.md section 4 C04"),
 }
 NOT_YET = "check not built yet in this round (work in progress; see DESIGN.md section 4)"
 def main():
